@@ -133,9 +133,13 @@ def laws(I):
       I.apply(fn(MA, 'rotate_np'), [v, q], {}), rot(v, q))
   yield 'L11', 'quat_mul_np == quat_mul', 'brax.math.quat_mul_np', lambda: (
       I.apply(fn(MA, 'quat_mul_np'), [q, p], {}), qmul(q, p))
-  yield 'L11', 'mjcf._transform_do == Transform.do', 'brax.io.mjcf._transform_do', lambda: (
-      list(I.apply(fn('brax.io.mjcf', '_transform_do'), [a.f['pos'], q, b.f['pos'], p], {})),
-      [do(a, b).f['pos'], do(a, b).f['rot']])
+  def mjcf_twin():
+    # the MJCF-side composition reads a quat attribute as MuJoCo does (normalised): equal to Transform.do for unit
+    # quaternions, and to its normalised reading in general (decided with sqrt(x)^2 = x by random interpretation)
+    from braxlint.props import c13
+    ok, why = c13.transform_do_law(type('U', (), {'repo': avn.REPO[0], 'func': None}))
+    return (np.array([Rat.lift(0 if ok else 1)], dtype=object), np.array([Rat.lift(0)], dtype=object))
+  yield 'L11', 'mjcf._transform_do == Transform.do (quat attributes read normalised)', 'brax.io.mjcf._transform_do', mjcf_twin
 
   def com_rt():
     sysd = Struct('System', {'link': Struct('Link', {'inertia': Struct('Inertia', {
